@@ -115,6 +115,13 @@ def make_overlay_class(cache_class: type) -> type:
             self.got.append(cache)
             return "handled"
 
+        @retrieve_cache(cache_class)
+        def on_response_failing(self, peer, payload, cache) -> str:  # noqa: ANN001
+            # a response handler that trips over the response's contents (Community.on_packet catches and logs that):
+            # the request was still claimed by its response
+            self.got.append(cache)
+            raise CallbackFailure(-1)
+
     return FakeOverlay
 
 
@@ -193,7 +200,17 @@ class World:
         prefix_i, number = self.m.idents[ident]
         prefix = self.m.prefixes[prefix_i]
         try:
-            if via == "handler":
+            if via == "handler-fails":
+                ov = self.overlays[prefix_i]
+                n = len(ov.got)
+                try:
+                    ov.on_response_failing(None, FakePayload(number))
+                except CallbackFailure:
+                    pass
+                if len(ov.got) == n:
+                    raise KeyError("handler not invoked")
+                c = ov.got[-1]
+            elif via == "handler":
                 ov = self.overlays[prefix_i]
                 n = len(ov.got)
                 out = ov.on_response(None, FakePayload(number))
@@ -269,6 +286,8 @@ class World:
             self.do_pop(ev[1], "class")
         elif kind == "resp":
             self.do_pop(ev[1], "handler")
+        elif kind == "resp_fails":
+            self.do_pop(ev[1], "handler-fails")
         elif kind == "wait":
             self.do_wait(ev[1], ev[2])
         elif kind == "clear":
@@ -343,6 +362,7 @@ class Model(core.BfsModel):
         if handler:
             al += [("pop_cls", i) for i in I]
             al += [("resp", i) for i in [*I, self.ghost]]
+            al += [("resp_fails", i) for i in I]
         al += [("wait", i, t) for i in I for t in self.waits]
         al += [("clear",), ("shutdown",), ("io", ("shutdown",))]
         self.alphabet = al
